@@ -106,6 +106,7 @@ type pcFn struct {
 	captured []*types.Var
 	wrapper  string
 	ftype    string // Lean type after (W) [and fuel]: for loops that take a cycle member as a parameter
+	ctorOf   *pcFn  // term mode: this is the construction-time part (the statements before the `return`) of that closure target
 }
 
 type pcGen struct {
@@ -114,6 +115,7 @@ type pcGen struct {
 	structs []string
 	sdone   map[string]bool
 	tree    *ptMode // nil: the parser core (-out-core); otherwise the tree passes (-out-tree, progtree.go)
+	term    *tmMode // non-nil: the terminal parsers (-out-term, progterm.go)
 }
 
 // the binder of the world parameter
@@ -121,7 +123,18 @@ func (g *pcGen) worldB() string {
 	if g.tree != nil {
 		return "(W : World St)"
 	}
+	if g.term != nil {
+		return "(W : TWorld)"
+	}
 	return "(W : World Context)"
+}
+
+// the monad of the generated functions (the terminal closures are polymorphic in the state)
+func (g *pcGen) mon() string {
+	if g.term != nil {
+		return "M σ"
+	}
+	return "M"
 }
 
 // ---- target language: pgLet / pgIf / pgTerm of progfacts.go plus a match ----
@@ -218,7 +231,7 @@ var pcKeywords = map[string]bool{"W": true, "s_": true, "Data": true, "Node": tr
 	"Option": true, "default": true, "r_": true, "NewError": true, "NewErrorf": true, "IsNotFoundError": true, "IsWhitespaceError": true}
 
 func (c *pcCtx) fresh(base string) string {
-	for pgKeywords[base] || pcKeywords[base] || (c.g.tree != nil && ptKeywords[base]) || c.taken[base] || strings.HasPrefix(base, "rec_") {
+	for pgKeywords[base] || pcKeywords[base] || (c.g.tree != nil && ptKeywords[base]) || (c.g.term != nil && tmKeywords[base]) || c.taken[base] || strings.HasPrefix(base, "rec_") {
 		base += "'"
 	}
 	c.taken[base] = true
@@ -281,8 +294,15 @@ func (g *pcGen) leanType(t types.Type) (string, bool) {
 		if s, ok, done := g.treeType(t); done {
 			return s, ok
 		}
-	} else if s, ok := pcFixedType[pcNamedPath(t)]; ok {
-		return s, true
+	} else {
+		if g.term != nil {
+			if s, ok, done := g.termType(t); done {
+				return s, ok
+			}
+		}
+		if s, ok := pcFixedType[pcNamedPath(t)]; ok {
+			return s, true
+		}
 	}
 	if pcIsCtx(t) {
 		return "", false
@@ -343,7 +363,7 @@ func (g *pcGen) leanType(t types.Type) (string, bool) {
 		if !ok {
 			return "", false
 		}
-		return "(" + s + "M " + r + ")", true
+		return "(" + s + g.mon() + " " + r + ")", true
 	case *types.Struct:
 		if n, ok := t.(*types.Named); ok {
 			return g.structType(n, u)
@@ -466,6 +486,11 @@ func (c *pcCtx) structLit(n *types.Named, s *types.Struct, given map[string]stri
 func (c *pcCtx) inject(v string, have, want types.Type) string {
 	if c.g.tree != nil {
 		return c.treeInject(v, have, want)
+	}
+	if c.g.term != nil {
+		if r, ok := c.termInject(v, have, want); ok {
+			return r
+		}
 	}
 	if have == nil || want == nil || !types.IsInterface(want) || types.IsInterface(have) {
 		return v
